@@ -15,7 +15,42 @@ TEN = HORIZONTAL + VERTICAL + [L2, L2R]
 
 
 def in_class(p, basis):
+    if len(p) > 12:  # long permutations: decide by the structural description (validated against the patterns on S_0..S_8)
+        for idx, cls in enumerate(TEN):
+            if basis is cls or list(basis) == list(cls):
+                return in_class_structural(p, idx)
     return not any(C.contains(p, q) for q in basis)
+
+
+def _monotone_prefix(q, inc):
+    k = 1 if q else 0
+    while k < len(q) and ((q[k] > q[k - 1]) == inc):
+        k += 1
+    return k
+
+
+def in_class_structural(p, idx):
+    """membership in the idx-th of the ten classes from its description: a juxtaposition of two monotone runs (read left to
+    right for the horizontal classes, on the inverse for the vertical ones), or a direct sum of 1s and 21s / its reverse"""
+    p = tuple(p)
+    n = len(p)
+    if idx < 8:
+        q = p if idx < 4 else C.inv(p)
+        kind = idx % 4
+        first_inc, second_inc = kind in (0, 1), kind in (0, 2)
+        k = _monotone_prefix(q, first_inc)                      # q[:j] is monotone for every j <= k
+        s = n - _monotone_prefix(tuple(reversed(q)), not second_inc)  # q[j:] is monotone for every j >= s
+        return s <= k
+    q = p if idx == 8 else tuple(reversed(p))
+    i = 0
+    while i < n:
+        if q[i] == i:
+            i += 1
+        elif i + 1 < n and q[i] == i + 1 and q[i + 1] == i:
+            i += 2
+        else:
+            return False
+    return True
 
 
 def meets(perms, basis):
@@ -23,11 +58,11 @@ def meets(perms, basis):
 
 
 def increasing(p):
-    return not C.contains(p, (1, 0))
+    return all(a < b for a, b in zip(p, p[1:])) if len(p) > 12 else not C.contains(p, (1, 0))
 
 
 def decreasing(p):
-    return not C.contains(p, (0, 1))
+    return all(a > b for a, b in zip(p, p[1:])) if len(p) > 12 else not C.contains(p, (0, 1))
 
 
 def is_finite(perms):
